@@ -34,8 +34,8 @@ TMStepEnd   == IsEvent("MStepEnd")   /\ MStepEnd(Ev.r)
 TOptBegin   == IsEvent("OptBegin")   /\ OptBegin(Ev.s0)
 TFinish     == /\ IsEvent("Finish")
                /\ IF Ev.r = "ok"
-                  THEN Finish("ok", Ev.ret, Ev.fv, Ev.re, Ev.feas, Ev.nb, Ev.tol, Ev.q)
-                  ELSE Finish(Ev.r, NoRank, NoRank, NoRank, <<>>, Ev.nb, Ev.tol, 0)
+                  THEN Finish("ok", Ev.ret, Ev.fv, Ev.re, Ev.feas, Ev.nb, Ev.tol, Ev.q, Ev.g)
+                  ELSE Finish(Ev.r, NoRank, NoRank, NoRank, <<>>, Ev.nb, Ev.tol, 0, 0)
 TBrBegin    == IsEvent("BrBegin")    /\ BrBegin
 TBracket    == /\ IsEvent("Bracket")
                /\ IF Ev.r = "ok" THEN Bracket("ok", Ev.x, Ev.f) ELSE Bracket(Ev.r, <<>>, <<>>)
